@@ -203,6 +203,12 @@ class MapperLab:
             elif k == 'write':
                 ref, old, new = e[1], e[2], e[3]
                 ent = self._entry_of_ref(ref)
+                if ent is None and ref.loc[0] == 'obj' and len(ref.path) == 2 and ref.path[0] == 0 and isinstance(ref.path[1], tuple) and ref.path[1][0] == 'idx' and \
+                        isinstance(new, Struct) and new.name == PTE:
+                    # the whole entry is assigned (`*entry = PageTableEntry::new()`): same as writing its raw word
+                    ent = (ref.loc[1], ref.path[1][1])
+                    new = inner(new)
+                    old = inner(old) if isinstance(old, Struct) else old
                 if ent is None:
                     if ref.loc[0] in ('obj', 'arg') and not (ref.loc == ('arg', 'self')):
                         ps.steps.append(Step('write-other', ref=ref, new=new, ev=e))
@@ -282,6 +288,13 @@ class MapperLab:
                 ent = names[next(iter(syms))]
                 v = (1 - val) if bit[3] else val
                 what, res = 'unused', v
+            elif len(syms) == 1 and next(iter(syms)) in names and len(lits) == 1 and lits[0][0] == 'v' and lits[0][2] in (SP.PTE_P, SP.PTE_PS) and \
+                    all(b == 0 or b is lits[0] or b == lits[0] for b in pl):
+                # `entry & FLAG == 0` / `match entry & FLAG { 0 => .. }`: a test of that single flag bit
+                ent = names[next(iter(syms))]
+                v = (1 - val) if bit[3] else val        # truth of "masked value is zero"
+                set_ = (1 - v) if not lits[0][3] else v  # truth of "the flag bit is set"
+                what, res = ('present' if lits[0][2] == SP.PTE_P else 'huge'), set_
             elif len(syms) == 1 and next(iter(syms)) in names and lits and all(b[0] == 'v' and 12 <= b[2] < 30 for b in lits):
                 # alignment test of the frame address stored in the entry (huge-page frames are size-aligned)
                 ent = names[next(iter(syms))]
